@@ -326,6 +326,50 @@ func runC10(r *core.Run) {
 			r.Violate("cell", fmt.Sprintf("%s<-%s/%s/%s", c.Dst, c.Src, c.DstMode, c10PathClass(c)), msg, c)
 		}
 	})
+	// sequences on one source object: transform, mutate the source in place (palette entries,
+	// pixels), transform again - no result may be remembered across calls by the source's identity
+	{
+		rg := core.NewRNG(r.Seed, "C10", "sequences")
+		for k := 0; k < 80; k++ {
+			kind := []string{"Paletted", "Gray", "NRGBA", "RGBA64"}[k%4]
+			rect := image.Rect(2, 1, 25, 14) // 299 pixels
+			src := newSource(kind, rect, false, rg)
+			fn := []string{"hash", "srgb.LineariseImage", "adobergb.EncodeImage"}[k%3]
+			perColor, run := c10Fn(fn)
+			for step := 0; step < 3; step++ {
+				dkind := c10DstKinds[(k+step)%4]
+				dst := newConcrete(dkind, rect)
+				model := newConcrete(dkind, rect)
+				for y := rect.Min.Y; y < rect.Max.Y; y++ {
+					for x := rect.Min.X; x < rect.Max.X; x++ {
+						model.Set(x, y, perColor(src.At(x, y)))
+					}
+				}
+				run(dst, src, 1+(k+step)%5)
+				r.AddEvals(1)
+				if !bytes.Equal(pixOf(dst), pixOf(model)) {
+					r.Violate("sequence", dkind+"<-"+kind+"/after-in-place-edit", fmt.Sprintf("%s of one %s image, call #%d after the image (its palette / pixels) had been edited in place: the result differs from the per-pixel function of the image as it is now", fn, kind, step+1), map[string]any{"src": kind, "dst": dkind, "transform": fn, "step": step, "k": k, "seed": r.Seed})
+					break
+				}
+				switch m := src.(type) {
+				case *image.Paletted:
+					first := m.Palette[0]
+					copy(m.Palette, m.Palette[1:])
+					m.Palette[len(m.Palette)-1] = first
+					v := rg.U64()
+					m.Palette[rg.Intn(len(m.Palette))] = color.NRGBA{R: uint8(v), G: uint8(v >> 8), B: uint8(v >> 16), A: uint8(v >> 24)}
+				default:
+					p := pixOf(src)
+					for i := 0; i < 40; i++ {
+						p[rg.Intn(len(p))] = byte(rg.Intn(256))
+					}
+					if len(p) > 0 {
+						p[0], p[len(p)-1] = 255, 255
+					}
+				}
+			}
+		}
+	}
 	r.Obs("cells_per_code_path", paths)
 	r.Sample(cells[len(cells)/3])
 	r.Sample(cells[2*len(cells)/3])
@@ -336,7 +380,7 @@ func runC10(r *core.Run) {
 	if r.Thorough() {
 		tier = "thorough"
 	}
-	out, reports, _, timedOut, err := core.RunRaceChild(work, "c10", []string{fmt.Sprintf("VERIF_SEED=%d", r.Seed)}, 20*time.Minute, "C10", tier)
+	out, reports, _, timedOut, err := core.RunRaceChild(work, "c10", []string{fmt.Sprintf("VERIF_SEED=%d", r.Seed), "GOMAXPROCS=3"}, 20*time.Minute, "C10", tier)
 	if timedOut {
 		r.Inconclusive("race pass watchdog fired")
 	} else if err != nil {
